@@ -9,6 +9,7 @@ import (
 	"os"
 	"path/filepath"
 	"sort"
+	"sync/atomic"
 	"time"
 
 	"github.com/spf13/viper"
@@ -28,9 +29,20 @@ const ChainID = "verif-chain"
 
 type pool struct{}
 
-func (pool) Lock()                                     {}
-func (pool) Unlock()                                   {}
-func (pool) Reap(int) []types.Tx                       { return nil }
+func (pool) Lock()   {}
+func (pool) Unlock() {}
+
+// Reap hands every own block a transaction of its own: two blocks a node creates are never the same
+// block, whatever the clock does (MakeBlock stamps time.Now(); on a coarse or slow clock a validator that
+// is killed and re-creates its proposal at once would otherwise build the IDENTICAL block, whose sign bytes
+// the signer rightly signs again - a coincidence of the clock that no model of names can follow).
+func (pool) Reap(int) []types.Tx {
+	n := atomic.AddUint64(&reapCounter, 1)
+	return []types.Tx{types.Tx(fmt.Sprintf("own-block-tx-%d", n))}
+}
+
+var reapCounter uint64
+
 func (pool) ReceiveTx(types.Tx) error                  { return nil }
 func (pool) Update(int64, []types.Tx)                  {}
 func (pool) Size() int                                 { return 0 }
@@ -48,7 +60,7 @@ type PowerChange struct {
 type exec struct{ c *Chain }
 
 func (exec) BeginBlock(*types.Block, events.Fireable, *types.PartSetHeader) error { return nil }
-func (exec) ExecBlock(*types.Block, events.Fireable, *types.ExecuteResult) error    { return nil }
+func (exec) ExecBlock(*types.Block, events.Fireable, *types.ExecuteResult) error  { return nil }
 func (e exec) EndBlock(b *types.Block, _ events.Fireable, _ *types.PartSetHeader, _ []*types.ValidatorAttr, next *types.ValidatorSet) error {
 	if ch, ok := e.c.Changes[b.Height]; ok {
 		_, v := next.GetByAddress(e.c.Addr(ch.Idx))
@@ -60,19 +72,19 @@ func (e exec) EndBlock(b *types.Block, _ events.Fireable, _ *types.PartSetHeader
 
 // Chain: validators (sorted by address), their keys, and one node.
 type Chain struct {
-	Dir    string
-	Keys   []crypto.PrivKeyEd25519 // in address order
-	Privs  []*types.PrivValidator  // in address order (file-backed for `Me`)
-	Powers []int64
+	Dir     string
+	Keys    []crypto.PrivKeyEd25519 // in address order
+	Privs   []*types.PrivValidator  // in address order (file-backed for `Me`)
+	Powers  []int64
 	Changes map[int64]PowerChange // validator power updates applied by EndBlock of that height
-	Me     int
-	CS     *pbft.ConsensusState
-	Ticker *pbft.VerifTicker
-	Store  *bc.BlockStore
+	Me      int
+	CS      *pbft.ConsensusState
+	Ticker  *pbft.VerifTicker
+	Store   *bc.BlockStore
 	StateDB dbm.DB
-	Gen    *types.GenesisDoc
-	conf   *viper.Viper
-	evsw   types.EventSwitch
+	Gen     *types.GenesisDoc
+	conf    *viper.Viper
+	evsw    types.EventSwitch
 }
 
 // NewChain: n validators with the given powers (in ADDRESS order), node = validator `me`.
